@@ -318,9 +318,44 @@ func runSandbox(c *c15Case, text string, writeFile bool) (*c15Run, error) {
 	os.WriteFile(jobPath, b, 0o644)
 	ctx, cancel := context.WithTimeout(context.Background(), 30*time.Second)
 	defer cancel()
-	cmd := exec.CommandContext(ctx, sb, "-policy", policyPath, fmt.Sprintf("-no-new-privs=%v", c.NNP), target, "arg1")
-	cmd.Dir = dir
-	cmd.Env = []string{"PATH=/usr/bin:/bin", "HOME=" + dir, "PROBE_MARKER=" + marker, "PROBE_JOB=" + jobPath}
+	args := []string{"-policy", policyPath}
+	cwd, home := dir, dir
+	if c.Defect == "missing-file" && c.Pos%4 != 0 {
+		// The named file does not exist where the name points to (relative to the working directory), but files of that
+		// name - valid, permissive policies - lie in other plausible places: next to the sandbox executable, in the
+		// home directory, in the parent of the working directory. None of them is the file the user named.
+		rel := []string{"", "policy.yml", "seccomp.yml", "policies/site.yml"}[c.Pos%4]
+		bin := filepath.Join(dir, "bin")
+		cwd, home = filepath.Join(dir, "work"), filepath.Join(dir, "home")
+		for _, d := range []string{bin, cwd, home} {
+			os.MkdirAll(d, 0o777)
+			os.Chmod(d, 0o777)
+		}
+		sb2 := filepath.Join(bin, "sandbox")
+		if err := os.Link(sb, sb2); err != nil {
+			b, rerr := os.ReadFile(sb)
+			if rerr != nil {
+				return nil, rerr
+			}
+			if err := os.WriteFile(sb2, b, 0o755); err != nil {
+				return nil, err
+			}
+		}
+		sb = sb2
+		decoy := "seccomp:\n  default_action: allow\n  syscalls:\n  - action: allow\n    names:\n    - getpid\n"
+		for _, d := range []string{bin, home, dir, filepath.Join(home, ".config"), filepath.Join(bin, "..", "etc")} {
+			os.MkdirAll(filepath.Dir(filepath.Join(d, rel)), 0o777)
+			os.WriteFile(filepath.Join(d, rel), []byte(decoy), 0o644)
+		}
+		args = []string{"-policy", rel}
+		if rel == "seccomp.yml" {
+			args = nil // the flag's default value
+		}
+	}
+	args = append(args, fmt.Sprintf("-no-new-privs=%v", c.NNP), target, "arg1")
+	cmd := exec.CommandContext(ctx, sb, args...)
+	cmd.Dir = cwd
+	cmd.Env = []string{"PATH=/usr/bin:/bin", "HOME=" + home, "PROBE_MARKER=" + marker, "PROBE_JOB=" + jobPath}
 	if c.Uid != 0 {
 		cmd.SysProcAttr = &syscall.SysProcAttr{Credential: &syscall.Credential{Uid: uint32(c.Uid), Gid: uint32(c.Uid)}}
 	}
@@ -380,6 +415,9 @@ func checkC15(raw json.RawMessage) (ev.Result, error) {
 		c.Policy.Groups = append([]spec.Group{{Action: action, Names: []string{name}}}, c.Policy.Groups...)
 		res.Classes = append(res.Classes, "entry-without-conditions:accepted-as-unconditional")
 		c.Defect = ""
+	}
+	if c.Defect == "missing-file" && c.Pos%4 != 0 {
+		res.Classes = append(res.Classes, "missing-file-with-namesakes-elsewhere")
 	}
 	if c.Defect != "" {
 		res.Classes = append(res.Classes, "invalid:"+c.Defect)
